@@ -4,7 +4,7 @@ ENGINES = {
     "res": dict(
         path="harness/res.go harness/resgen.go harness/resextract.go coq/Base coq/Generated/Quantity.v coq/Oracles/ResCheck.v coq/Props/C18.v",
         about="Gallina model of pkg/common/resources (resources.go, quantity.go) with Go int64 wrap-around and binary64 (SpecFloat) arithmetic; theorems: calculators = clamp of the exact result, component-wise specification of every vector operation and predicate, order independence, parse exact-or-error; one call per case compared with the model and with the specification through vm_compute; non-mutation checked by the harness",
-        n=dict(quick=2500, thorough=5000), shards=dict(quick=2, thorough=16),
+        n=dict(quick=2500, thorough=5000), shards=dict(quick=2, thorough=24),
         kinds={
             1: dict(cls="corr", props=["C18"], what="resources model and implementation disagree"),
             2: dict(cls="oracle", props=["C18"], what="result differs from the arbitrary-precision / component-wise specification"),
@@ -21,7 +21,7 @@ PROPS = {
                 explanation="122 Coq theorems about the executable model of resources.go / quantity.go (calculators equal the clamped exact result; every vector operation and predicate equals its component-wise definition at every key, for all key sets, all int64 values, nil and empty; results do not depend on map iteration order; parse returns number x multiplier exactly or an error). The same right-hand sides are evaluated as oracles on the results of the real code for every generated call; non-mutation and panics are observed by the harness. The multiplier table and the regexp text are re-extracted from quantity.go on every run and must equal the modelled ones (proof obligation by reflexivity).",
                 manifest=dict(
                     category="proof",
-                    text="Coq theorems (no axioms): addVal/subVal/mulVal of the model (Go wrap-around arithmetic and the code's own overflow tests) equal clamp of the exact sum/difference/product for all int64 operands; mulValRatio always returns an int64 and equals clamp(trunc(binary64 product)) for every value and every non-NaN ratio (canonicity of SpecFloat's rounding/product/int conversion re-proved without Flocq); for Add, Sub, AddTo, SubFrom, SubOnlyExisting, AddOnlyExisting, SubEliminateNegative, SubErrorNegative, Multiply, ComponentWiseMin(OnlyExisting), ComponentWiseMax, MergeIfNotPresent, Prune the lookup of the result at every key is the stated component-wise function of the operands' lookups (value and key set), well-formedness and int64 range are preserved; FitIn/FitInMaxUndef/FitInActual, StrictlyGreaterThan(OrEquals)(OnlyExisting), Equals, DeepEquals, EqualsOrEmpty, IsZero, MatchAny, HasNegativeValue, StrictlyGreaterThanZero equal their forall-k definitions with the documented treatment of missing types; all are invariant under permutation of the association lists (Go map order) and total on nil; parse(s, milli) = Ok v iff the trimmed string is digits+ \\s* suffix with suffix in the extracted multiplier table and v = number x multiplier (x1000 for milli without m) within int64, any other string is an error. The model is tied to the Go code by a correspondence run on every invocation (every exported function, the four calculators and parse; model result and specification oracle both compared with the implementation; arguments checked for non-mutation and non-aliasing by the harness).",
+                    text="Coq theorems (no axioms): addVal/subVal/mulVal of the model (Go wrap-around arithmetic and the code's own overflow tests) equal clamp of the exact sum/difference/product for all int64 operands; mulValRatio always returns an int64 and equals clamp(trunc(binary64 product)) for every value and every non-NaN ratio (canonicity of SpecFloat's rounding/product/int conversion re-proved without Flocq); for Add, Sub, AddTo, SubFrom, SubOnlyExisting, AddOnlyExisting, SubEliminateNegative, SubErrorNegative, Multiply, ComponentWiseMin(OnlyExisting), ComponentWiseMax, MergeIfNotPresent, Prune the lookup of the result at every key is the stated component-wise function of the operands' lookups (value and key set), well-formedness and int64 range are preserved; the DOCUMENTED behaviour of SubEliminateNegative/SubErrorNegative (every negative value reset to 0, error iff some value was negative) is refuted for a type only the left operand has (recorded known finding) and proved outside that window; FitIn/FitInMaxUndef/FitInActual, StrictlyGreaterThan(OrEquals)(OnlyExisting), Equals, DeepEquals, EqualsOrEmpty, IsZero, MatchAny, HasNegativeValue, StrictlyGreaterThanZero equal their forall-k definitions with the documented treatment of missing types; all are invariant under permutation of the association lists (Go map order) and total on nil; parse(s, milli) = Ok v iff the trimmed string is digits+ \\s* suffix with suffix in the extracted multiplier table and v = number x multiplier (x1000 for milli without m) within int64, any other string is an error. The model is tied to the Go code by a correspondence run on every invocation (every exported function, the four calculators and parse; model result and specification oracle both compared with the implementation; arguments checked for non-mutation and non-aliasing by the harness).",
                     note="theorems are about the hand-written Gallina model coq/Base (Int64.v, F64.v, Res.v, ResMore.v, Quantity.v); the tie to the code is differential (one call per case, generators reach the int64 extremes, nil/empty/aliased arguments, unicode and malformed UTF-8 strings); 'never modify their arguments' is not expressible for a pure function and is decided by the harness only; float helper functions (getFairShare, compareShares, CompUsageRatio*, FitInScore, FairnessRatio, CalculateAbsUsedCapacity, DominantResourceType) are covered by model/implementation correspondence only; amd64 float->int conversion and absence of FMA contraction are trusted; kernel + vm_compute trusted",
                     technique="Coq proof over an executable model + model/implementation correspondence + specification oracles on implementation results"),
                 assumptions=["all quantities are int64 values (in_range) and resource vectors have no duplicate keys (every Go map)",
